@@ -164,7 +164,10 @@ def check(ctx: Ctx) -> str:
     ctx.check(rows == {"zero": "None", "negative": "{}", "positive": "LRUCache(size)"}, "create_cache", "environment:create_cache", "size mapping", f"create_cache maps sizes as {rows}", cc.loc(), detail=rows)
     cp = repo.func("environment:copy_cache")
     s = ast.unparse(cp.node)
-    ctx.check("cache is None" in s and "type(cache) is dict" in s and "LRUCache(cache.capacity)" in s, "copy_cache", "environment:copy_cache", "mirror", "copy_cache must return None / {} / LRUCache(cache.capacity)", cp.loc())
+    rows_c = {ast.unparse(r.value): astq.guard_atoms(cp.node, r) for r in astq.returns(cp.node) if r.value is not None}
+    ok_cp = set(rows_c) == {"None", "{}", "LRUCache(cache.capacity)"} and ("cache is None", True) in rows_c["None"] and ("type(cache) is dict", True) in rows_c["{}"] and ("cache is None", False) in rows_c["{}"] \
+        and ("type(cache) is dict", False) in rows_c["LRUCache(cache.capacity)"] and ("cache is None", False) in rows_c["LRUCache(cache.capacity)"]
+    ctx.check(ok_cp, "copy_cache", "environment:copy_cache", "mirror", "copy_cache must return None / {} / LRUCache(cache.capacity)", cp.loc())
     init = repo.func("environment:Environment.__init__")
     ctx.check("self.cache = create_cache(cache_size)" in ast.unparse(init.node), "init:cache", "environment:Environment.__init__", "cache creation", "Environment.__init__ must build its cache with create_cache(cache_size)", init.loc())
     # a bounded template cache evicts the least recently used template: that clause is the
